@@ -256,6 +256,10 @@ func twinPrint(f *dst.File, res resolver.RestorerResolver) ([]byte, error) {
 
 // Run executes one C20 history.
 func Run(run *core.Run) {
+	if run.T.Bool(1, 250) {
+		runDefaultSave(run) // the exported Save() with its default resolver (runs `go list`): slow, rare
+		return
+	}
 	w := draw(run)
 	if w.realDir {
 		runReal(run, w)
